@@ -303,6 +303,7 @@ int main(int argc, char **argv)
 		if (vx_deadline_passed()) { vx_and("exhaustive", 0); vx_count("scenarios_skipped_deadline", 1); continue; }
 		build(&cfgs[i]);
 		O.bound = cfgs[i].bound;
+		double t_scn = vx_now();
 		vs_explore(&S, &O, &st);
 		if (st.racy) {
 			vs_options F = O; F.fine_grained = 1; F.race_detect = 0;
@@ -310,6 +311,7 @@ int main(int argc, char **argv)
 			vx_count("scenarios_rerun_fine_grained", 1);
 			vs_explore(&S, &F, &st);
 		}
+		if (vx_now() - t_scn > 4.0) vx_note("slow scenario %s: %.1f s, %llu states", S.name, vx_now() - t_scn, (unsigned long long)st.states);
 		vx_count("scenarios", 1);
 		if (cfgs[i].threads) vx_count("scenarios_free_threads", 1); else vx_count("scenarios_nested_interrupts", 1);
 		vx_count("states", st.states); vx_count("transitions", st.steps + st.interrupts_injected + st.atomic_ops); vx_count("traces", st.executions);
